@@ -422,6 +422,15 @@ func (r *vfRelayRig) episode(kind string, rnd *vfRand) bool {
 	if r.tmux {
 		// two sinks: every server token has one it belongs to (pane before the CFG line of a confirmed handshake and
 		// after the end of the transfer, the client's tty in between); each sink is checked on its own tokens
+		// the client tty is a FIFO drained by a goroutine: a line written there may still be on its way
+		for _, w := range wantS {
+			if !r.sWait(s0, b0, []byte(w), 10*time.Second) {
+				c.Slow("c13-special-line-late", "%s: the %s line did not reach either sink within 10 s", kind, w)
+				return false
+			}
+		}
+		time.Sleep(2 * time.Millisecond)
+		outS = r.toClient.Bytes()[s0:]
 		outB := r.toBypass.Bytes()[b0:]
 		var stP, stB []vfTok
 		for _, t := range st {
